@@ -161,7 +161,10 @@ func mergeAndPersistInvertedSection(segments []*SegmentBase, dropsIn []*roaring.
 		use1HitEncoding := func(termCardinality uint64) (bool, uint64, uint64) {
 			if termCardinality == uint64(1) && locEncoder.FinalSize() <= 0 {
 				docNum := uint64(newRoaring.Minimum())
-				if under32Bits(docNum) && docNum == lastDocNum && lastFreq == 1 {
+				// the norm bits must fit as well, and must not be zero: readers
+				// take zero norm bits for "not a 1-hit entry"
+				if under32Bits(docNum) && docNum == lastDocNum && lastFreq == 1 &&
+					lastNorm != 0 && under32Bits(lastNorm) {
 					return true, docNum, lastNorm
 				}
 			}
